@@ -99,6 +99,36 @@ finding(id="KF-C12-ediff1d-size1-poison", property="C12", status="open",
         match={"act": "reduce", "clauses": ["poison"], "when": "fn == 'ediff1d' and arg_size[0] <= 1"},
         witness=witness(w_ediff1d))
 
+def _polydiv(rec, args, fn="divmod", spelling="function"):
+    rec.do("polydiv", args, keep=False, fn=fn, spelling=spelling, capped=False, digs=[], iterations=0)
+
+
+def w_pingpong(rec):
+    n = rec.new(poly((), (0, 1), [[0, 1]], [[1.0]], "float64"))                      # q1
+    d = rec.new(poly((), (0, 1), [[0, 1], [1, 0]], [[-2.0], [-2.0]], "float64"))      # -2*q1-2*q0
+    _polydiv(rec, [n, d])
+
+
+finding(id="KF-C05-pingpong", property="C05", status="open",
+        what="poly_divmod does not terminate when a divisor element has two terms neither of which divides the other: the loop eliminates them alternately and the running dividend cycles (poly_divmod(q1, -2*q1-2*q0): q1 -> -q0 -> q1 ...). TLC finds the same lasso in spec/Divide.tla under the candidate rule as implemented and none under a leading-term rule; repairing it means changing the division algorithm, not a small patch",
+        match={"act": "polydiv", "clauses": ["nontermination", "nontermination_repeat"],
+               "when": "any([(not all([x <= y for x, y in zip(r1, r2)])) and (not all([y <= x for x, y in zip(r1, r2)])) for r1 in arg_rows[1] for r2 in arg_rows[1]])"},
+        witness=witness(w_pingpong))
+
+
+def w_numpy_left(rec):
+    import numpy
+    n = rec.new(numpy.float64(1.5))
+    d = rec.new(poly((), (0,), [[0], [1]], [[1.0], [2.0]], "float64"))
+    _polydiv(rec, [n, d], fn="divide", spelling="operator")
+
+
+finding(id="KF-C05-numpy-left-operand", property="C05", status="open",
+        what="with a numpy array or numpy scalar on the left, '/', '%' and divmod() do not reach poly_divide/poly_remainder/poly_divmod: ndarray.__truediv__ hands the call to the true_divide/remainder/divmod ufuncs, which numpoly answers with numeric semantics (FeatureNotSupported for a non-constant divisor, numeric floor/remainder for a constant one). Python numbers on the left work. Both behaviours are required by other documented rules (C11), so this is a design conflict, not a small patch",
+        match={"act": "polydiv", "clauses": ["raised", "value_constant_divisor", "value_identity", "value_exact_multiple", "value_degree", "shape", "type"],
+               "when": "spelling == 'operator' and arg_carrier[0] in ('ndarray', 'npscalar')"},
+        witness=witness(w_numpy_left))
+
 # --------------------------------------------------------------------- fixed
 FIXED = [
     ("C01", "8ccbe55", "power with an array exponent: transposed / wrongly broadcast result for 3-d operands and for base and exponent of different ndim"),
